@@ -184,6 +184,7 @@ def same_answer(impl, rec):
 
 def size_of(case):
     return (len(case["steps"]), 0 if case.get("fin") is None else 1, 0 if case["data"] == "std" else 1,
+            sum(1 for s in case["steps"] if s["on"] is None), 0 if case.get("shape") == "independent" else 1,
             len(json.dumps(case)))
 
 
@@ -219,7 +220,8 @@ def run(ctx: core.Ctx):
     def bump(h, k):
         hist[h][k] = hist[h].get(k, 0) + 1
 
-    results = run_cases_parallel(cases)
+    ctx.log(f"running {len(cases)} cases on the implementation")
+    results = run_cases_parallel(cases, workers=8)
     for case, w in zip(cases, results):
         if w["term"] is None:
             ctx.broken("harness:render", f"{w['render_error']} on {rd.case_str(case)}")
@@ -313,7 +315,8 @@ def run(ctx: core.Ctx):
                 rmeta.append(r)
             except Exception as ex:
                 ctx.broken("harness:render-recording", f"{type(ex).__name__}: {ex}")
-        rres = ctx.cases("c02rec", HEADER, ritems, per_file=150, result_ty="str", fn="check")
+        ctx.log(f"{len(ritems)} recorded PySpark answers to compare with the Coq Spark spec")
+        rres = ctx.cases("c02rec", HEADER, ritems, per_file=160, result_ty="str", fn="check_spec")
         bad, accepts = [], {}
         for r, v in zip(rmeta, rres):
             if v is None or len(v) != 8:
@@ -321,14 +324,14 @@ def run(ctx: core.Ctx):
             n_rec += 1
             if "error" in r["result"]:
                 n_rec_err += 1
-                if v[6] != "1":
+                if v[7] != "1":
                     n_rec_err_spec_accepts += 1
                     import re as _re
                     k = r["result"]["error"] + ": " + _re.sub(r"[#o]\d+L?", "#", r["result"].get("text", ""))[:60]
                     accepts[k] = accepts.get(k, 0) + 1
-            elif v[6] == "1":
+            elif v[7] == "1":
                 n_rec_abstain += 1       # the spec rejects conservatively (self-join through DataFrame references, hidden columns)
-            elif v[1] != "1":
+            elif v[2] != "1":
                 n_rec_bad += 1
                 bad.append({"program": rd.case_str(r["case"]), "pyspark": r["result"], "verdict": v})
         if bad:
